@@ -110,6 +110,18 @@ def run_case(rng, tier, case):
             case.check('value.fixed_rerun_same_value', abs(float(rfx.res.value) - float(r.res.value)) <= tolv, first=float(r.res.value), fixed_rerun=float(rfx.res.value), split=split, steps_fixed=kq)
         elif not rfx.ok and rfx.stage in ('optimize', 'extract'):
             case.check('value.fixed_rerun_works', False, split=split, error=flow.describe_error(rfx))
+    if gen.is_mip(spec) and not one_call and rng.random() < 0.5:
+        # "every optimised portfolio": the documented relaxed run (make_soft_problem) of the same problem - what it returns is accounted for like any other result
+        import eaopack.io as eio
+        try:
+            with env.quiet():
+                res_s = r.op.optimize(make_soft_problem=True)
+                out_s = None if isinstance(res_s, str) else eio.extract_output(r.built.portfolio, r.op, res_s, r.built.prices)
+            if out_s is not None:
+                case.feature('relaxed_run' + (':split' if split else ''))
+                mon_value_accounting(case, r.built.portfolio, res_s, out_s, setups, r.built.timegrid.T)
+        except Exception as e:
+            case.check('value.relaxed_run_works', False, split=split, error='%s: %s' % (type(e).__name__, str(e)[:160]))
     if not split and not gen.is_mip(spec) and rng.random() < 0.25:
         # "every optimised portfolio": the robust target (spelled as users spell it) on the same problem object, extracted the same way
         import eaopack.io as eio
